@@ -344,7 +344,7 @@ def r4(ctx):
                               (render(other), lit))
     ctx.covered("keyword comparisons in the parser (literal with letters vs lexem payload)", n,
                 distinct_keys=["n:%d" % n])
-    ctx.floor(n, 30, "keyword comparisons in parser.rs", "parser.rs")
+    ctx.floor(n, 15, "keyword comparisons in parser.rs", "parser.rs")
 
 
 def r5(ctx):
